@@ -4,6 +4,7 @@ from __future__ import annotations
 
 import hashlib
 import io
+import os
 import json
 import re
 import zipfile
@@ -86,6 +87,10 @@ def build_initial(init: dict) -> bytes:
         out = io.BytesIO()
         D.write_zip(members, out)
         return out.getvalue()
+    if init["deck"] == "corpus2masters":
+        from mbt.engine import REPO
+        with open(os.path.join(REPO, "features", "steps", "test_files", "prs-slide-masters.pptx"), "rb") as f:
+            return f.read()
     if init["deck"] == "gengap":
         from pptx.chart.data import CategoryChartData
         from pptx.enum.chart import XL_CHART_TYPE
@@ -400,6 +405,8 @@ class DeckRun:
                 self._slides()[0].placeholders[99]
             elif w == "layoutIndex":
                 prs.slide_layouts[99]
+            elif w == "removeForeignLayout":
+                prs.slide_layouts.remove(prs.slide_masters[1].slide_layouts[0])
             return "notRejected"
         elif op == "save":
             # an object with a life: every "save" of a history goes to the SAME stream the caller holds (never rewound or truncated by the
